@@ -30,6 +30,8 @@ func (p *LastUsedPoller) Get() transport.TransportID {
 	defer p.tr.lastReadTransportIDmu.RUnlock()
 	tID := p.tr.lastReadTransportID
 	if tID != "" {
+		p.tr.mu.RLock()
+		defer p.tr.mu.RUnlock()
 		return p.tr.currentTransportID
 	}
 	return p.tr.lastReadTransportID
